@@ -246,8 +246,58 @@ def diffrax_seq_case(c):
     return dict(status="ok", fails=[])
 
 
+def delayed_edges_backend_case(c):
+    """Discrete (ring-buffer) edge delays, alone and mixed with gamma-kernel delays, on scalar edges and on Connectivity objects:
+    a backend either refuses the model (an exception) or returns the trajectory the NumPy backend returns."""
+    from pyrates import OperatorTemplate, NodeTemplate, CircuitTemplate, clear_frontend_caches
+    from pyrates.frontend.template.population import PopulationTemplate, Connectivity
+    dt, steps = 0.05, 24
+
+    def build():
+        clear_frontend_caches()
+        op = OperatorTemplate(name="ro", equations=["d/dt * r = (eta - r)/tau + s_in"], path=None,
+                              variables={"r": "output(0.1)", "eta": 0.5, "tau": 2.0, "s_in": "input(0.0)"})
+        node = NodeTemplate(name="rn", operators=[op], path=None)
+        if c["form"] == "scalar":
+            edges = [("a/ro/r", "b/ro/s_in", None, {"weight": 0.8, "delay": 4 * dt}), ("b/ro/r", "a/ro/s_in", None, {"weight": -0.6, "delay": 0.3, "spread": 0.15})]
+            if c["order"]:
+                edges = edges[::-1]
+            tpl = CircuitTemplate(name="dn", nodes={"a": node, "b": node}, edges=edges, path=None)
+            tpl.update_var(node_vars={"a/ro/eta": 1.5, "b/ro/r": -0.4})
+            return tpl, {"a": "a/ro/r", "b": "b/ro/r"}
+        pp = PopulationTemplate(name="p", node=node, n=2, params={"ro/eta": [1.5, 0.8], "ro/r": [0.3, -0.2]})
+        qq = PopulationTemplate(name="q", node=node, n=2, params={"ro/eta": [0.3, 0.4], "ro/r": [0.5, 0.2]})
+        conns = [Connectivity(source="p/ro/r", target="q/ro/s_in", weights=np.array([[0.0, 0.5], [0.7, 0.0]]), delays=4 * dt),
+                 Connectivity(source="q/ro/r", target="p/ro/s_in", weights=np.array([[0.3, -0.5], [0.25, 0.1]]), delays=0.3, spread=0.15)]
+        if c["order"]:
+            conns = conns[::-1]
+        return CircuitTemplate(name="dn", populations={"p": pp, "q": qq}, connections=conns), {"p": "p/ro/r", "q": "q/ro/r"}
+
+    def sim(backend):
+        tpl, outs = build()
+        res = tpl.run(simulation_time=steps * dt, step_size=dt, solver="euler", outputs=outs, backend=backend, clear=True, verbose=False,
+                      float_precision="float64", file_name=f"dly_{backend}")
+        return np.asarray(res.values, dtype=float)
+    try:
+        ref = sim("default")
+    except Exception as exn:
+        return dict(status="skipped", fails=[], detail=dict(note=f"NumPy backend does not run the model: {type(exn).__name__}: {exn}"))
+    try:
+        got = sim(c["backend"])
+    except Exception as exn:
+        return dict(status="ok", fails=[], detail=dict(refused=f"{type(exn).__name__}"))
+    fails = []
+    if got.shape != ref.shape or not np.allclose(got, ref, rtol=1e-9, atol=1e-11):
+        bad = float(np.abs(got - ref).max()) if got.shape == ref.shape else None
+        fails.append(dict(clause="a backend that accepts a model with discrete edge delays returns the NumPy backend's trajectory (or refuses the model)",
+                          observed=dict(shape=list(got.shape), max_abs_difference=bad, last_row=got[-1].tolist()), expected=dict(last_row=ref[-1].tolist())))
+    return dict(status="violated" if fails else "ok", fails=fails)
+
+
 def dispatch(c):
     k = c["kind"]
+    if k == "delayed_edges_backend":
+        return delayed_edges_backend_case(c)
     if k == "vecop":
         return vecop_case(c)
     if k == "interp_field":
@@ -363,6 +413,11 @@ def families(tier, seed):
         nd["over"]["op/tau"] = nd["over"].get("op/tau", 2.0) * 1.7
     out.append(dict(tag="diffrax-two-runs/jax", features=dict(backend="jax", solver="diffrax"), kind="diffrax_seq", target="p1/op/u", T=1.0, dt=0.05,
                     dts=0.1, items=[(three, smooth), (three_b, [-x for x in smooth])]))
+    for b in ("torch", "jax"):
+        for form in ("scalar", "connectivity"):
+            for order in (0, 1):
+                out.append(dict(tag=f"delayed-edges/{form}/{order}/{b}", features=dict(backend=b, delayed_edges=form), kind="delayed_edges_backend",
+                                backend=b, form=form, order=order))
     for name in VECOPS:
         for b in BACKENDS:
             out.append(dict(tag=f"{name}/{b}", features=dict(backend=b, vecop=name), kind="vecop", name=name, backend=b, seed=seed))
